@@ -123,6 +123,29 @@ theorem rejectBall_inside (dim fuel : Nat) (s : BitVec 64) (v : List Rat) (s' : 
       injection h with h; injection h with hv _; subst hv; exact hle
     · exact ih _ h
 
+
+/-- The vector `UnitCircle` normalises is never the zero vector (the exit condition of its loop):
+the division by its length is defined. Before /repo 66dde8c the first draw was normalised
+unconditionally; 2^18 generator states (e.g. 0x00003588a4a5ef5e) make it (0, 0). -/
+theorem circleRaw_nonzero (fuel : Nat) (s : BitVec 64) (v : List Rat) (s' : BitVec 64)
+    (h : circleRaw fuel s = some (v, s')) : lenSqr v ≠ 0 := by
+  induction fuel generalizing s with
+  | zero => simp [circleRaw] at h
+  | succ n ih =>
+    unfold circleRaw at h
+    simp only at h
+    split at h
+    · exact ih _ h
+    · rename_i hne
+      injection h with h; injection h with hv _; subst hv; exact hne
+
+/-- The fixed defect as a theorem about the model: from state 0x00003588a4a5ef5e the first draw from the
+square is exactly (0, 0), and the loop takes a second draw. -/
+theorem circle_zero_witness :
+    (uniformRatList 0x00003588a4a5ef5e#64 (List.replicate 2 (-1, 1))).1 = [0, 0] ∧
+    (circleRaw 2 0x00003588a4a5ef5e#64).isSome = true := by
+  decide +kernel
+
 /-! ### Composite distributions draw components in order, each on the successor state -/
 
 theorem uniformI32List_cons (s : BitVec 64) (a b : Int) (rest : List (Int × Int)) (v : Int)
